@@ -290,11 +290,31 @@ class HAPServerProtocol(asyncio.Protocol):
         # If we get a shared key, upgrade to encrypted
         if response.shared_key:
             self.hap_crypto = HAPCrypto(response.shared_key)
+        # A removed controller must lose its open sessions, but only
+        # after the response to the removal request has been sent
+        if response.pairing_removed:
+            self._close_unpaired_sessions()
         # Only update mDNS after sending the response
         if response.pairing_changed:
             async_create_background_task(
                 self.loop.run_in_executor(None, self.accessory_driver.finish_pair)
             )
+
+    def _close_unpaired_sessions(self) -> None:
+        """Close every verified connection whose controller is no longer paired."""
+        paired_clients = self.accessory_driver.state.paired_clients
+        for hap_proto in list(self.connections.values()):
+            handler = hap_proto.handler
+            if handler.client_uuid is None or handler.client_uuid in paired_clients:
+                continue
+            logger.debug(
+                "%s (%s): Pairing removed, closing session",
+                hap_proto.peername,
+                handler.client_uuid,
+            )
+            # Requests that are already buffered must not be served either
+            handler.is_encrypted = False
+            hap_proto.close()
 
     def _handle_response_ready(self, task: asyncio.Task) -> None:
         """Handle delayed response."""
